@@ -174,10 +174,11 @@ def split_line(l):
 
 
 def write_replay(pid, payload):
-    os.makedirs(os.path.join(VERIF, "replays"), exist_ok=True)
+    rdir = os.environ.get("VERIF_REPLAY_DIR") or os.path.join(VERIF, "replays")
+    os.makedirs(rdir, exist_ok=True)
     blob = json.dumps(payload, indent=1, sort_keys=True)
     h = hashlib.sha256(blob.encode()).hexdigest()[:12]
-    path = os.path.join(VERIF, "replays", "%s-%s.json" % (pid, h))
+    path = os.path.join(rdir, "%s-%s.json" % (pid, h))
     open(path, "w").write(blob)
     return path
 
@@ -437,8 +438,10 @@ def main():
         "wall_s": round(wall, 2),
         "violations": len(violations),
     }
-    os.makedirs(os.path.join(VERIF, "evidence"), exist_ok=True)
-    json.dump(ev, open(os.path.join(VERIF, "evidence", "%s.json" % pid), "w"), indent=1, sort_keys=True)
+    # seeded-change trials (tools/seedtest.py) run against a scratch tree: their evidence is not the repo's
+    evdir = os.environ.get("VERIF_EVIDENCE_DIR") or os.path.join(VERIF, "evidence")
+    os.makedirs(evdir, exist_ok=True)
+    json.dump(ev, open(os.path.join(evdir, "%s.json" % pid), "w"), indent=1, sort_keys=True)
 
     if violations:
         for kind, path, found in violations[:5]:
